@@ -15,7 +15,7 @@ open GeoVerif GeoVerif.ErrContract GeoVerif.Proofs.ErrContract
 
 /-! ## 1. the decision procedures of the sweep are sound for the contract -/
 
-/-- The dependence table (228 entry points) is well formed: every row has one character per output, drawn from
+/-- The dependence table (229 entry points) is well formed: every row has one character per output, drawn from
 `0 1 x`, and the inputs listed as "NaN is rejected" exist. -/
 theorem table_wellformed : table.all wellFormed = true := by decide +kernel
 
